@@ -118,7 +118,8 @@ def grid_dims(spec):
     raise ValueError(conv)
 
 
-def var_dim_names(spec, var):
+def full_var_dim_names(spec, var):
+    """Dimension names of a variable as it is stored (before any spec["pick"] is applied)."""
     gd = grid_dims(spec)
     out = []
     for d in var["dims"]:
@@ -127,6 +128,14 @@ def var_dim_names(spec, var):
         else:
             out.append(d)
     return out
+
+
+def var_dim_names(spec, var):
+    """Dimension names of a variable in the dataset a check sees: spec["pick"] = {dim: index}
+    says that one index of a non-grid dimension was picked beforehand (ds.isel(dim=index)),
+    which removes that dimension from every variable."""
+    picked = spec.get("pick") or {}
+    return [d for d in full_var_dim_names(spec, var) if d not in picked]
 
 
 def dim_sizes(spec):
@@ -149,14 +158,15 @@ def var_number(spec, var):
 
 
 def canonical_dims(spec, var):
-    return sorted(var_dim_names(spec, var))
+    return sorted(full_var_dim_names(spec, var))
 
 
 def flat_canonical(spec, var, idx_by_dim):
     sizes = dim_sizes(spec)
+    picked = spec.get("pick") or {}
     flat = 0
     for d in canonical_dims(spec, var):
-        flat = flat * sizes[d] + idx_by_dim[d]
+        flat = flat * sizes[d] + (picked[d] if d in picked else idx_by_dim[d])
     return flat
 
 
@@ -223,10 +233,11 @@ def _nan_set(var):
 
 def raw_array(spec, var):
     """Build the stored array element by element (no reshape, no ravel)."""
-    names = var_dim_names(spec, var)
+    names = full_var_dim_names(spec, var)
     sizes = dim_sizes(spec)
     shape = tuple(sizes[d] for d in names)
     dtype = NP_DTYPES[var["dtype"]]
+    spec = dict(spec, pick=None)      # (the stored array has every dimension)
     fill = var.get("fill")
     arr = numpy.zeros(shape, dtype=dtype)
     is_stamp = var["dtype"] == "M8"
@@ -740,7 +751,7 @@ def build_raw(spec):
         values = raw_array(spec, var)
         if spec.get("data_layout") == "F" and values.ndim >= 2:
             values = numpy.asfortranarray(values)
-        data_vars[var["name"]] = (var_dim_names(spec, var), values, vattrs)
+        data_vars[var["name"]] = (full_var_dim_names(spec, var), values, vattrs)
 
     for dim, labels in (spec.get("dim_coords") or {}).items():
         # a dimension coordinate on a grid dimension: labels that are NOT the positions
@@ -785,6 +796,13 @@ def release_files():
 
 def build(spec):
     """Build the dataset for a spec in the mode it asks for."""
+    ds = _build(spec)
+    if spec.get("pick"):
+        ds = ds.isel({d: k for d, k in spec["pick"].items() if d in ds.dims})
+    return ds
+
+
+def _build(spec):
     raw = build_raw(spec)
     mode = spec.get("mode", "raw")
     if mode == "raw":
